@@ -179,6 +179,16 @@ func Mk(v oracle.Val, prec uint, mode int) *decimal.Decimal {
 // before (leftover mantissa words and exponent, anywhere in the exponent range): whatever a special value held
 // before must never show.
 func MkR(r *RNG, v oracle.Val, prec uint, mode int) *decimal.Decimal {
+	d := mkR(r, v, prec, mode)
+	if r != nil && r.Chance(25) {
+		// like the result of an inexact operation: the accuracy of an operand is Below or Above (it says how the
+		// operand came about and must not influence anything computed from it)
+		staleAcc(d, 1-2*r.Intn(2))
+	}
+	return d
+}
+
+func mkR(r *RNG, v oracle.Val, prec uint, mode int) *decimal.Decimal {
 	if v.Form == oracle.Finite || r == nil || !r.Chance(60) {
 		return Mk(v, prec, mode)
 	}
